@@ -145,6 +145,11 @@ func (c *Ctx) ok(rule, construct, where, detail string) {
 }
 
 func (c *Ctx) bad(rule, construct, where, detail string) {
+	for _, o := range c.Obls {
+		if o.Rule == rule && o.Construct == construct && o.Status == Refuted {
+			return // one report per (rule, construct)
+		}
+	}
 	c.Add(&Obligation{Rule: rule, Construct: construct, Status: Refuted, Where: where, Detail: detail})
 }
 
